@@ -105,6 +105,9 @@ func ruleOrderMapRange(c *Ctx) []Obligation {
 		}
 		pos := c.InstrPos(mr.rng)
 		verdict, why := c.classifyMapRange(mr)
+		if verdict != "ok" && c.constantStoresOnly(mr) {
+			verdict, why = "ok", "I7: the body does nothing but store constants (a reset sweep): the final state is the same in every order, also when an object is reached twice"
+		}
 		switch verdict {
 		case "ok":
 			obs = append(obs, ok(R, con, pos, why))
@@ -1078,4 +1081,42 @@ func literalListElems(v ssa.Value) []ssa.Value {
 		}
 	}
 	return out
+}
+
+// constantStoresOnly: every effect of the loop body is a store of a constant (nil, zero, false) — calls only to repo
+// functions that write nothing, no map updates, no appends kept, no returns out of the loop.
+func (c *Ctx) constantStoresOnly(mr mapRange) bool {
+	okAll, stores := true, 0
+	for _, b := range mr.fn.Blocks {
+		if !mr.inBody(b) {
+			continue
+		}
+		for _, in := range b.Instrs {
+			switch x := in.(type) {
+			case *ssa.Store:
+				if _, isAlloc := x.Addr.(*ssa.Alloc); isAlloc {
+					continue
+				}
+				if _, isK := x.Val.(*ssa.Const); !isK {
+					okAll = false
+				}
+				stores++
+			case *ssa.MapUpdate, *ssa.Send, *ssa.Go, *ssa.Defer, *ssa.Return, *ssa.Panic:
+				okAll = false
+			case ssa.CallInstruction:
+				cal := x.Common().StaticCallee()
+				if cal == nil {
+					if _, isB := x.Common().Value.(*ssa.Builtin); isB {
+						continue
+					}
+					okAll = false
+					continue
+				}
+				if !c.isRepoFn(cal) || len(c.WritesOf(cal)) > 0 {
+					okAll = false
+				}
+			}
+		}
+	}
+	return okAll && stores > 0
 }
